@@ -64,7 +64,8 @@ Record cfg := mkCfg {
   c_like_cls : bop; c_ilike_cls : bop;
   c_rlike_fn : string; c_startswith_fn : string; c_endswith_fn : string; c_substr_fn : string;
   c_getitem_lit_off : Z;          (* net amount added to a literal index in the emitted text *)
-  c_getitem_col_off : Z }.        (* ... and to a Column index *)
+  c_getitem_col_off : Z;          (* ... to a Column index that contains no numeric literal *)
+  c_getitem_numkey_off : Z }.     (* ... to a Column index that contains one (element_at_using_brackets) *)
 
 (** ---- sqlframe's builder ---------------------------------------------------------------------- *)
 Definition mkbin (bf : binfact) (self other : sexpr) : sexpr :=
@@ -75,6 +76,31 @@ Definition mkun (uf : unfact) (x : sexpr) : sexpr :=
   if uf_not uf then SNot x' else SNeg x'.
 Definition pylit (strlit : bool) (v : val) : sexpr :=
   match v with VStr s => if strlit then SLit v else SCol s | _ => SLit v end.
+
+(** does the index expression contain a numeric literal (what element_at_using_brackets looks for) *)
+Definition is_numval (v : val) : bool := match v with VInt _ | VRat _ _ => true | _ => false end.
+Fixpoint has_numlit (e : sexpr) : bool :=
+  match e with
+  | SCol _ => false
+  | SLit v => is_numval v
+  | SParen e | SNot e | SNeg e | SIsNull e | SCast e _ => has_numlit e
+  | SIn e vs => has_numlit e || existsb is_numval vs
+  | SBin _ a b | SCall2 _ a b | SBracket a b => has_numlit a || has_numlit b
+  | SBetween a b d | SCall3 _ a b d => has_numlit a || has_numlit b || has_numlit d
+  | SCase bs => has_numlitb bs
+  end
+with has_numlitb (bs : branches) : bool :=
+  match bs with
+  | BEnd => false
+  | BElse e => has_numlit e
+  | BWhen c v r => has_numlit c || has_numlit v || has_numlitb r
+  end.
+Definition getitem_off (c : cfg) (i : sexpr) : Z :=
+  if has_numlit i then c_getitem_numkey_off c else c_getitem_col_off c.
+Definition offset_key (z : Z) (i : sexpr) : sexpr :=
+  if z =? 0 then i
+  else if z <? 0 then SParen (SBin Sub i (SLit (VInt (- z))))
+  else SParen (SBin Add i (SLit (VInt z))).
 
 Fixpoint build (c : cfg) (t : uexpr) : sexpr :=
   match t with
@@ -105,9 +131,7 @@ Fixpoint build (c : cfg) (t : uexpr) : sexpr :=
   | UAlias a _ => build c a
   | UGetItemLit a k => SBracket (build c a) (SLit (VInt (Z.of_nat k + c_getitem_lit_off c)))
   | UGetItemCol a i =>
-      SBracket (build c a)
-        (if c_getitem_col_off c =? 0 then build c i
-         else SParen (SBin Add (build c i) (SLit (VInt (c_getitem_col_off c)))))
+      SBracket (build c a) (offset_key (getitem_off c (build c i)) (build c i))
   end
 with buildb (c : cfg) (bs : ubranches) : branches :=
   match bs with
